@@ -54,4 +54,14 @@ def parkWorld : World Codec.dropFF := run (World.init Codec.dropFF 4 .chunked 0 
 def parkRun (waitRechecks : Bool) : World Codec.dropFF :=
   run (World.init Codec.dropFF 4 .chunked 0 true false false false 128 false waitRechecks) (parkOps.take 3)
 
+/-! ### readline parks after the parser failed during its own re-entrant refill (K13) -/
+/-- chunked: `1\r\n\x05\r\n` `1\r\n\x04\r\n` `1\r\n\x00\r\n` `0\r\n\r\n` — two good chunks (5 + 4 decoded bytes,
+over the high-water mark 8), then a chunk the toy decoder rejects, all in one read -/
+def k13Wire : Bytes := [49,13,10,5,13,10, 49,13,10,4,13,10, 49,13,10,0,13,10, 48,13,10,13,10]
+/-- the body is received, the parser pauses with the corrupt chunk still pending; `read(2)`; the next
+op is `readline()`.  `_wait` re-checks after a wake-up (497c4dd) in both runs; `entry` = it also
+checks before parking. -/
+def k13Run (entry : Bool) : World Codec.expand :=
+  run (World.init Codec.expand 4 .chunked 0 true false false false 128 true true entry) [.deliver k13Wire, .pread 2]
+
 end Aio.C09
